@@ -248,12 +248,25 @@ def check_transition(World, NT, hist, step):
 
 
 def bfs(task):
+    try:
+        return bfs_(task, True)
+    except common.FingerprintTooFine as ex:
+        r = bfs_(task, False)
+        r["fp_fallback"] = str(ex)
+        return r
+
+
+def bfs_(task, use_fp):
     name, NT, NL, sub_types, rich = task[:5]
     kind = task[5] if len(task) > 5 else "distinct"
     World = make_world(NL, kind)
     alpha = alphabet(NT, NL, sub_types, rich)
     r0 = Ref(NT, eq_class(kind))
-    seen = {check_transition(World, NT, [], (("ra", None, None), {}))[1]: []}
+    def key(c_):
+        return c_ if use_fp else c_[0]
+    seen = {key(check_transition(World, NT, [],
+                                 (("ra", None, None), {}))[1]): []}
+    refstates = set()
     frontier = collections.deque([[]])
     trans = 0
     viols = []
@@ -271,10 +284,14 @@ def bfs(task):
                     frontier.clear()
                     break
                 continue
+            refstates.add(c[0])
+            c = key(c)
             outcomes.add(c)
             if c not in seen:
                 seen[c] = h + [step]
                 frontier.append(h + [step])
+                if use_fp:
+                    common.fp_guard(len(seen), len(refstates))
     deepest = max(seen.values(), key=len)
     return dict(name=name, NT=NT, NL=NL, sub=sub_types, rich=rich, kind=kind,
                 states=len(seen), transitions=trans, maxdepth=maxdepth,
@@ -558,6 +575,11 @@ def run(ctx):
     for r in common.pimap(bfs, tasks):
         states += r["states"]
         trans += r["transitions"]
+        if r.get("fp_fallback"):
+            ctx.assumptions.append(
+                "bfs %s: the picture of the real producer is not canonical "
+                "(%s); states merged on the reference state alone" % (
+                    r["name"], r["fp_fallback"]))
         ctx.part("bfs " + r["name"], states=r["states"],
                  transitions=r["transitions"], ops=r["ops"],
                  maxdepth=r["maxdepth"], violations=len(r["viols"]))
